@@ -12,6 +12,7 @@ from . import core
 REGISTRY = {
     "C13": "statecache",
     "C14": "hashstream",
+    "C15": "addpipeline",
     "C17": "lazyindex",
     "C18": "storagemap",
     "C19": "treemerge",
